@@ -21,6 +21,8 @@ import os
 
 from .common import REPO, discover, is_test_module, parse
 
+FLAG = ["dry_run"]  # the boolean parameter the guards are classified against
+
 FS_FUNCS = {
     "makedirs", "mkdir", "remove", "rmtree", "unlink", "rename", "renames", "replace", "rmdir", "removedirs",
     "copy", "copy2", "copyfile", "copytree", "copymode", "copystat", "move", "symlink", "link", "chmod", "chown",
@@ -69,6 +71,12 @@ class World:
             self._collect(m, tree.body, None, None, m)
         for m, tree in self.mods.items():
             self._imports(m, tree)
+        # module-level code of each module as a pseudo-function "<module>"
+        for m, tree in self.mods.items():
+            node = ast.FunctionDef(name="<module>", args=ast.arguments(posonlyargs=[], args=[], vararg=None, kwonlyargs=[],
+                                                                      kw_defaults=[], kwarg=None, defaults=[]),
+                                   body=tree.body, decorator_list=[], returns=None, lineno=1, col_offset=0)
+            self.fns[m + ".<module>"] = Fn(m + ".<module>", m, node, None, None)
 
     def _collect(self, mod, body, cls, parent, prefix):
         for n in body:
@@ -201,10 +209,10 @@ class Translator:
     def dry_test(self, t):
         if not self.dry_ok:
             return None
-        if isinstance(t, ast.Name) and t.id == "dry_run":
+        if isinstance(t, ast.Name) and t.id == FLAG[0]:
             return ("dry", True)
         if isinstance(t, ast.UnaryOp) and isinstance(t.op, ast.Not) and isinstance(t.operand, ast.Name) \
-                and t.operand.id == "dry_run":
+                and t.operand.id == FLAG[0]:
             return ("dry", False)
         if isinstance(t, ast.BoolOp) and isinstance(t.op, ast.And):
             subs = [self.dry_test(v) for v in t.values]
@@ -236,19 +244,19 @@ class Translator:
         for n in ast.walk(node):
             if n is not node and isinstance(n, (ast.FunctionDef, ast.AsyncFunctionDef, ast.Lambda)):
                 a = n.args
-                if any(x.arg == "dry_run" for x in a.posonlyargs + a.args + a.kwonlyargs):
+                if any(x.arg == FLAG[0] for x in a.posonlyargs + a.args + a.kwonlyargs):
                     shadow = True
         # a closure sees the enclosing function's dry_run
-        has_param = "dry_run" in params
+        has_param = FLAG[0] in params
         f = fn.parent
         inherited = False
         while not has_param and f is not None:
             pa = f.node.args
-            if any(x.arg == "dry_run" for x in pa.posonlyargs + pa.args + pa.kwonlyargs):
+            if any(x.arg == FLAG[0] for x in pa.posonlyargs + pa.args + pa.kwonlyargs):
                 inherited = True
                 break
             f = f.parent
-        self.dry_ok = (has_param or inherited) and stores.get("dry_run", 0) == 0 and not shadow
+        self.dry_ok = (has_param or inherited) and stores.get(FLAG[0], 0) == 0 and not shadow
         self.derived = {}
         if self.dry_ok:
             for n in ast.walk(node):
@@ -257,15 +265,19 @@ class Translator:
                     tgt, val = n.targets[0].id, n.value
                 elif isinstance(n, ast.AnnAssign) and isinstance(n.target, ast.Name) and n.value is not None:
                     tgt, val = n.target.id, n.value
-                if tgt and tgt != "dry_run" and stores.get(tgt, 0) == 1 and tgt not in params:
+                if tgt and tgt != FLAG[0] and stores.get(tgt, 0) == 1 and tgt not in params:
                     d = self.dry_test(val)
                     if d is not None:
                         self.derived[tgt] = ("imp", d[1])
 
     # --- effects
     def site(self, kind, node, text):
+        try:
+            code = " ".join(ast.unparse(node).split())
+        except Exception:  # noqa
+            code = "?"
         self.w.sites.append({"kind": kind, "module": self.fn.mod, "function": self.fn.fqn,
-                             "line": getattr(node, "lineno", 0), "what": text})
+                             "line": getattr(node, "lineno", 0), "what": text, "code": code[:200]})
         return "Eff %s %d" % (kind, len(self.w.sites) - 1)
 
     def classify_ext(self, dotted):
@@ -352,8 +364,8 @@ class Translator:
     def dry_arg(self, c, callee_fqns, partial_=False):
         """How dry_run reaches the callee(s)."""
         for k in c.keywords:
-            if k.arg == "dry_run":
-                if isinstance(k.value, ast.Name) and k.value.id == "dry_run" and self.dry_ok:
+            if k.arg == FLAG[0]:
+                if isinstance(k.value, ast.Name) and k.value.id == FLAG[0] and self.dry_ok:
                     return "DPass"
                 if isinstance(k.value, ast.Constant) and isinstance(k.value.value, bool):
                     return "(DConst %s)" % ("true" if k.value.value else "false")
@@ -366,7 +378,7 @@ class Translator:
             a = node.args
             pos = [x.arg for x in a.posonlyargs + a.args]
             allp = pos + [x.arg for x in a.kwonlyargs]
-            if "dry_run" not in allp:
+            if FLAG[0] not in allp:
                 # closure: inherits the lexically enclosing flag
                 r = "DPass"
             else:
@@ -374,13 +386,13 @@ class Translator:
                 args = c.args[1:] if partial_ else c.args
                 if any(isinstance(x, ast.Starred) for x in args):
                     r = "DUnknown"
-                elif "dry_run" in pos:
-                    i = pos.index("dry_run")
+                elif FLAG[0] in pos:
+                    i = pos.index(FLAG[0])
                     if self.w.fns[fq].cls is not None and pos and pos[0] in ("self", "cls"):
                         i -= 1
                     if 0 <= i < len(args):
                         x = args[i]
-                        if isinstance(x, ast.Name) and x.id == "dry_run" and self.dry_ok:
+                        if isinstance(x, ast.Name) and x.id == FLAG[0] and self.dry_ok:
                             r = "DPass"
                         elif isinstance(x, ast.Constant) and isinstance(x.value, bool):
                             r = "(DConst %s)" % ("true" if x.value else "false")
@@ -392,12 +404,12 @@ class Translator:
                         r = "DUnknown"
                     else:
                         dflt = None
-                        if "dry_run" in pos:
-                            i = pos.index("dry_run") - (len(pos) - len(a.defaults))
+                        if FLAG[0] in pos:
+                            i = pos.index(FLAG[0]) - (len(pos) - len(a.defaults))
                             if i >= 0:
                                 dflt = a.defaults[i]
                         else:
-                            i = [x.arg for x in a.kwonlyargs].index("dry_run")
+                            i = [x.arg for x in a.kwonlyargs].index(FLAG[0])
                             dflt = a.kw_defaults[i]
                         if isinstance(dflt, ast.Constant) and isinstance(dflt.value, bool):
                             r = "(DConst %s)" % ("true" if dflt.value else "false")
@@ -417,13 +429,13 @@ class Translator:
                 # a bare reference to a function with its own dry_run parameter: flag supplied elsewhere
                 if c is None:
                     a = self.w.fns[e[1]].node.args
-                    if any(x.arg == "dry_run" for x in a.posonlyargs + a.args + a.kwonlyargs):
+                    if any(x.arg == FLAG[0] for x in a.posonlyargs + a.args + a.kwonlyargs):
                         d = "DUnknown"
                 out.append("Call %d %s" % (self.w.fns[e[1]].idx, d))
             elif e[0] == "class":
                 for mq in self.w.classes.get(e[1], []):
                     a = self.w.fns[mq].node.args
-                    d = "DUnknown" if any(x.arg == "dry_run" for x in a.posonlyargs + a.args + a.kwonlyargs) else "DPass"
+                    d = "DUnknown" if any(x.arg == FLAG[0] for x in a.posonlyargs + a.args + a.kwonlyargs) else "DPass"
                     out.append("Call %d %s" % (self.w.fns[mq].idx, d))
         return out
 
@@ -544,6 +556,10 @@ class Translator:
         out = []
         for s in ss:
             if isinstance(s, ast.If):
+                if self.fn.node.name == "<module>" and " ".join(ast.unparse(s.test).split()) in (
+                        "__name__ == '__main__'", "'__main__' == __name__"):
+                    out += self.stmts(s.orelse)   # not executed at import
+                    continue
                 out += self.expr(s.test)
                 t, f = self.stmts(s.body), self.stmts(s.orelse)
                 if t or f:
@@ -576,6 +592,7 @@ class Translator:
             elif isinstance(s, ast.ClassDef):
                 for d in s.decorator_list + s.bases:
                     out += self.expr(d)
+                out += self.stmts(s.body)      # a class body is executed where it is written
             elif s.__class__.__name__ == "Match":
                 out += self.expr(s.subject)
                 for c in s.cases:
@@ -627,7 +644,8 @@ ENTRIES = {
 }
 
 
-def build():
+def build(flag="dry_run"):
+    FLAG[0] = flag
     w = World()
     w.load()
     order = sorted(w.fns)
@@ -642,14 +660,38 @@ def build():
     return w, order, blocks
 
 
+def analysis_entries(w):
+    """Public functions of the parser / emitter modules + the commands that analyse files."""
+    out = []
+    for q, fn in sorted(w.fns.items()):
+        if fn.cls is not None or fn.parent is not None or fn.node.name.startswith("_") or fn.node.name == "<module>":
+            continue
+        parts = fn.mod.split(".")
+        if "parse" in parts or "emit" in parts or fn.mod in ("cdd.shared.docstring_parsers", "cdd.shared.conformance",
+                                                            "cdd.compound.doctrans", "cdd.compound.gen",
+                                                            "cdd.compound.sync_properties", "cdd.shared.cst",
+                                                            "cdd.compound.doctrans_utils"):
+            out.append(q)
+    return out
+
+
+def site_key(s):
+    return "%s|%s|%s" % (s["kind"], s["function"], s["code"])
+
+
 def generate():
-    w, order, blocks = build()
+    w, order, blocks = build("dry_run")
+    w2, order2, blocks2 = build("input_eval")
+    assert order == order2 and [site_key(s) for s in w.sites] == [site_key(s) for s in w2.sites]
     lines = ["(* GENERATED by translate/effects.py from /repo -- do not edit. *)",
-             "From Coq Require Import List.", "Import ListNotations.", "From CDD Require Import EffectSem.", ""]
-    lines.append("Definition skeleton : prog := [")
-    for i, q in enumerate(order):
-        lines.append("  (* %d %s *) %s%s" % (i, q.replace("*)", "* )"), render(blocks[i]), ";" if i + 1 < len(order) else ""))
-    lines.append("].")
+             "From Coq Require Import List String.", "Import ListNotations.", "From CDD Require Import EffectSem.",
+             "Local Open Scope string_scope.", ""]
+    for nm, bl, flag in (("skeleton", blocks, "dry_run"), ("skeleton_ie", blocks2, "input_eval")):
+        lines.append("(* guards classified against the parameter `%s` *)" % flag)
+        lines.append("Definition %s : prog := [" % nm)
+        for i, q in enumerate(order):
+            lines.append("  (* %d %s *) %s%s" % (i, q.replace("*)", "* )"), render(bl[i]), ";" if i + 1 < len(order) else ""))
+        lines.append("].")
     missing = []
     for k, q in ENTRIES.items():
         if q in w.fns:
@@ -657,11 +699,18 @@ def generate():
         else:
             missing.append(q)
             lines.append("Definition id_%s : nat := %d." % (k, len(order) + 7))  # out of range = bad_block
+    ents = analysis_entries(w)
+    lines.append("Definition analysis_entries : list nat := [%s]." % "; ".join(str(w.fns[q].idx) for q in ents))
+    lines.append("Definition module_bodies : list nat := [%s]." %
+                 "; ".join(str(w.fns[q].idx) for q in order if q.endswith(".<module>")))
+    lines.append("Definition site_info : list (nat * string) := [")
+    lines.append(";\n".join('  (%d, "%s")' % (i, site_key(s).replace('"', '""')) for i, s in enumerate(w.sites)))
+    lines.append("].")
     lines.append("Definition n_functions : nat := %d." % len(order))
     lines.append("Definition n_sites : nat := %d." % len(w.sites))
     meta = {"functions": len(order), "sites": len(w.sites), "stmts": sum(size(b) for b in blocks),
             "unsupported": [s for s in w.sites if s["kind"] == "KUnsupported"], "missing_entries": missing,
-            "site_table": w.sites, "names": order}
+            "site_table": w.sites, "names": order, "analysis_entries": ents}
     return {"EffectSkeleton.v": "\n".join(lines) + "\n"}, meta
 
 
@@ -674,7 +723,7 @@ def find_path(order, blocks, entry_idx, dry, bad_kinds):
             if isinstance(st, str):
                 tok = st.split()
                 if tok[0] == "Eff":
-                    if tok[1] in bad_kinds:
+                    if (bad_kinds(tok[1], int(tok[2])) if callable(bad_kinds) else tok[1] in bad_kinds):
                         return path + [("EFF", tok[1], int(tok[2]))]
                 else:  # Call idx darg
                     idx = int(tok[1])
